@@ -404,13 +404,15 @@ def correspondence(wd, cases, outs, tag="ws", shard=120):
 
 
 # ------------------------------------------------------------------ shrinking a failing ws case
-def shrink_ws(case, fdir, fails, budget=70):
+def shrink_ws(case, fdir, fails, budget=40, seconds=45):
     """greedy reduction; fails(candidate) re-runs the compiled harness"""
     cur = json.loads(json.dumps(case))
     used = [0]
+    t_end = time.time() + seconds
 
     def attempt(cand):
-        if used[0] >= budget:
+        if used[0] >= budget or time.time() > t_end:
+            used[0] = budget
             return False
         used[0] += 1
         return fails(cand)
@@ -522,8 +524,6 @@ def run_tunnel(binary, wd, scenarios, tag="tunnel"):
 def monitor_scenario(sc, so):
     if so.get("panic"):
         return {"sig": "tunnel-panic", "why": "scenario %s: %s" % (sc["id"], so["panic"])}
-    if len(so["conns"]) != len(sc["conns"]):
-        return {"sig": "tunnel-panic", "why": "scenario %s: %d of %d connections ran" % (sc["id"], len(so["conns"]), len(sc["conns"]))}
     for i, (spec, co) in enumerate(zip(sc["conns"], so["conns"])):
         where = "scenario %s connection %d (%s closes, %s)" % (sc["id"], i, spec["closer"], spec["mode"])
         if co["got_up"] != co["sent_up"]:
@@ -538,6 +538,8 @@ def monitor_scenario(sc, so):
             return {"sig": "tunnel-zero-nil", "why": "%s: %d reads returned (0, nil)" % (where, co["zero_reads"])}
         if not co["eof_seen"]:
             return {"sig": "tunnel-eof", "why": "%s: the other end did not observe end-of-stream (%s)" % (where, co["eof_class"])}
+    if len(so["conns"]) != len(sc["conns"]) or so.get("failed"):
+        return {"sig": "tunnel-panic", "why": "scenario %s: %d of %d connections ran" % (sc["id"], len(so["conns"]), len(sc["conns"]))}
     if not so["released"]:
         return {"sig": "tunnel-leak", "why": "scenario %s: %d goroutines of tunnelled connections still alive (baseline %d) long after every connection was closed" % (
             sc["id"], so["legs_final"], so["legs_base"])}
@@ -580,7 +582,14 @@ def run(ctx):
     th.start()
 
     t1 = time.time()
-    outs = run_ws(ws_bin, ctx["wd"], cases)
+    ncorp = len(CORPUS)
+    outs = run_ws(ws_bin, ctx["wd"], cases[:ncorp], tag="ws_corpus")
+    if any(monitor_case(c, o) for c, o in zip(cases, outs)):
+        # the hand-picked connections already fail: that is a failing input, skip the random campaign
+        log("[C07] corpus connection fails the stream monitor; random campaign skipped")
+        cases = cases[:ncorp]
+    else:
+        outs += run_ws(ws_bin, ctx["wd"], cases[ncorp:])
     log("[C07] ws harness: %d connections in %.1fs" % (len(cases), time.time() - t1))
     violations, known = [], []
     mon_fail = []
@@ -651,6 +660,7 @@ def run(ctx):
                 tun_fail.append((sc, so, f))
         tstats["failures"] = len(tun_fail)
         tstats["goroutines"] = [[so["baseline"], so["final"], so["legs_base"], so["legs_final"]] for so in tun["outs"]]
+        tstats["scenarios_run"] = len(tun["outs"])
         seen = set()
         for sc, so, f in tun_fail:
             if f["sig"] in seen:
@@ -675,7 +685,7 @@ def run(ctx):
                 "payload_bytes": sum(len(o["dirs"][d]["payload"]) // 2 for o in outs for d in range(2))})
     cov = {"evaluations": len(cases) + tstats["connections"], "distinct_nontrivial": nontriv,
            "rule": "ws: corpus of hand-picked connections first, then random two-direction scripts of binary writes 0..256 KiB incl. empty ones, injected text/ping frames, read-buffer lists 1..64 KiB, terminal close / close frame / transport cut inside a message / protocol violation; non-trivial = some message is empty or larger than the smallest read buffer of its reader, or a frame was injected; distinct by script. tunnel: generated chunkings through Dialer|Forwarder -> 1|2 nodes -> Listener|agent tcpproxy|client forwarder",
-           "samples": [trim_case(cases[0]), trim_case(cases[len(CORPUS) + 1]), {"tunnel": scenarios[0]["id"], "conn": scenarios[0]["conns"][0]}],
+           "samples": [trim_case(cases[0]), trim_case(cases[min(len(CORPUS) + 1, len(cases) - 1)]), {"tunnel": scenarios[0]["id"], "conn": scenarios[0]["conns"][0]}],
            "correspondence": {"harness": "harness/ws TestVerifHarness_WS (real pkg/websocket.Conn pairs over loopback)",
                               "histories": cstats["histories"], "ops": cstats["reads"], "distribution": mix,
                               "disagreements": len(dis), "seed": ctx["seed"]},
